@@ -246,8 +246,10 @@ def run_property(prop, tier='quick', seed=0, jobs=12):
         for o in outs:
             for r in o['results']:
                 if r['status'] != 'unsat' and r['kind'] not in ('canary', 'kf-repro'):
-                    print('  --', r['status'], r['id'], '\n     goal:', r.get('goal'),
-                          '\n     model:', json.dumps(r.get('model'))[:1500])
+                    print('  --', r['status'], r['id'], '|', (r.get('note') or '')[:100])
+                    if os.environ.get('PYVC_VERBOSE') == '2':
+                        print('     goal:', r.get('goal'),
+                              '\n     model:', json.dumps(r.get('model'))[:1500])
 
     ev = {
         'property_id': prop, 'tier': tier, 'seed': seed,
